@@ -89,6 +89,17 @@ CHECKS["C03"] = dict(
     technique="TLA+ reference executor model-checked with TLC; TLC-generated vectors replayed into the Go code",
     design="3/C03")
 
+CHECKS["C17"] = dict(
+    text="spec/props/C17.tla enumerates programs (12 bases from the capture/inheritance/include shapes, each also with a run-time "
+         "error of 8 kinds at every position) and checks on the reference that errors stop execution; the harness runs every "
+         "program fault-free, with the writer failing at its k-th write for every k, the loader failing at its k-th load for every "
+         "k, and through ExecuteSafe, recording write/load/return events. spec/props/C17_Trace.tla is a state machine over these "
+         "events (accepted bytes, failed flags, reference output computed from the AST by Exec.tla) and TLC rejects any run that "
+         "breaks FailedWriteIsLast, MainIsPrefixOfSuccess, ErrReturned or SafeAllOrNothing.",
+    note=_EXEC_NOTE + " How output is chunked into Write calls is not fixed by the reference: a failure may occur at any chunk boundary.",
+    technique="TLA+ trace validation (TLC accepts recorded fault-injection runs against the spec's state machine and reference output)",
+    design="3/C17")
+
 NOT_YET = {}
 
 props = [json.loads(l)["id"] for l in open(os.path.join(VERIF, "properties.jsonl"))]
